@@ -49,9 +49,6 @@ Definition no_spec : spec := fun _ => None.
 Definition ops_of (notes : list op) : list op :=
   map (fun n => (key_from_file_name (fst (fst n)), snd (fst n), snd n)) notes.
 
-Definition all_plain (ops : list op) : Prop :=
-  Forall (fun o : op => Forall (fun b => plain_items b = true) (snd o)) ops.
-
 (* ---------- trees: id erasure, node maps -------------------------------------------------------------- *)
 
 Fixpoint erase (t : tree) : tree := match t with T _ nd ts => T None nd (map erase ts) end.
@@ -185,14 +182,13 @@ Qed.
 (* ---------- the builder lays the specification tree (the refinement theorem, with [laid] kept) ---------- *)
 
 Lemma build_laid (a : arena) (key : string) (bs : list dblock) :
-  Forall (fun b => plain_items b = true) bs ->
   exists st, build_document a key bs = Ok st /\
              laid (b_arena st) (spec_tree key bs) (length a) None /\
              length (b_arena st) = length a + tsz (spec_tree key bs).
 Proof.
-  intros Hok. unfold build_document, spec_tree, note_tree.
+  unfold build_document, spec_tree, note_tree.
   set (dir := key_parent key). set (doc := GN (KDocument key) None None None).
-  destruct (builder_refines dir (dblocks_size bs)) as (_ & _ & _ & HB).
+  destruct (builder_refines dir (dblocks_size bs)) as (_ & _ & _ & HB & _).
   assert (HQ : Qb (build_key a key)).
   { exists (KDocument key). cbn [build_key b_arena b_cur]. split; [|reflexivity].
     unfold kind_at. now rewrite get_app_new. }
@@ -272,17 +268,17 @@ Qed.
 (* ---------- building a note with a new key (the import step) ---------------------------------------------- *)
 
 Lemma build_note_tree g f key meta bs :
-  tree_inv g f -> f key = None -> Forall (fun b => plain_items b = true) bs ->
+  tree_inv g f -> f key = None ->
   exists g', build_note g key meta bs = Ok g' /\ tree_inv g' (upd f key (meta, bs)) /\ gr_titles g' = gr_titles g.
 Proof.
-  intros [Hinv Hn] Hnone Hplain.
+  intros [Hinv Hn] Hnone.
   pose proof (Hn key) as Hk. rewrite Hnone in Hk. cbn [note_ok] in Hk.
   destruct g as [a keys maps titles metas]. cbn [gr_arena gr_keys gr_maps gr_titles gr_meta] in *.
   destruct (build_note_inv build_document_wf a keys maps titles metas key meta bs
-              (ready_fresh _ key Hinv Hk) Hplain) as (g' & Hb & Hinv' & _).
+              (ready_fresh _ key Hinv Hk)) as (g' & Hb & Hinv' & _).
   exists g'. split; [exact Hb|].
   unfold build_note in Hb. cbn [gr_arena gr_keys gr_maps gr_titles gr_meta] in Hb.
-  destruct (build_laid a key bs Hplain) as (st & Hbd & Hl & _). rewrite Hbd in Hb. cbn [bind] in Hb.
+  destruct (build_laid a key bs) as (st & Hbd & Hl & _). rewrite Hbd in Hb. cbn [bind] in Hb.
   inversion Hb; subst g'; clear Hb.
   split; [split; [exact Hinv'|]|reflexivity].
   intros k. unfold upd. destruct (String.eqb k key) eqn:E.
@@ -302,11 +298,11 @@ Qed.
 (* ---------- one update -------------------------------------------------------------------------------------- *)
 
 Theorem update_key_text g f key meta bs :
-  text_inv g f -> Forall (fun b => plain_items b = true) bs ->
+  text_inv g f ->
   exists g', update_key g key meta bs = Ok g' /\ text_inv g' (upd f key (meta, bs)).
 Proof.
-  intros [[Hinv Hn] Ht] Hplain.
-  destruct (update_key_inv build_document_wf g key meta bs Hinv Hplain) as (g' & Hu & Hinv').
+  intros [[Hinv Hn] Ht].
+  destruct (update_key_inv build_document_wf g key meta bs Hinv) as (g' & Hu & Hinv').
   exists g'. split; [exact Hu|].
   assert (Hshape : exists a1 st, build_document a1 key bs = Ok st /\
             g' = refresh_title (G (b_arena st) (ainsert key (length a1) (gr_keys g))
@@ -320,7 +316,7 @@ Proof.
     destruct (build_document a1 key bs) as [st|] eqn:Hb; cbn [bind] in Hu2; [|discriminate].
     inversion Hu2. exists a1, st. auto. }
   destruct Hshape as (a1 & st & Hb & Hg').
-  destruct (build_laid a1 key bs Hplain) as (st' & Hb' & Hl & _). rewrite Hb in Hb'. inversion Hb'; subst st'; clear Hb'.
+  destruct (build_laid a1 key bs) as (st' & Hb' & Hl & _). rewrite Hb in Hb'. inversion Hb'; subst st'; clear Hb'.
   set (g1 := G (b_arena st) (ainsert key (length a1) (gr_keys g)) (ainsert key (b_map st) (gr_maps g)) (gr_titles g)
                (match meta with Some m => ainsert key m (gr_meta g) | None => aremove key (gr_meta g) end)) in Hg'.
   assert (Hk1 : alookup key (gr_keys g1) = Some (length a1)) by apply LibraryFacts.alookup_ainsert_same.
@@ -355,31 +351,31 @@ Qed.
 
 (* ---------- whole histories ------------------------------------------------------------------------------------ *)
 
-Theorem run_text ops : all_plain ops ->
+Theorem run_text ops :
   forall g0 f0, text_inv g0 f0 ->
   exists g, run ops (Ok g0) = Ok g /\ text_inv g (over (last_op ops) f0).
 Proof.
-  induction 1 as [|[[k m] bs] ops Hop _ IH]; intros g0 f0 Hinv.
+  induction ops as [|[[k m] bs] ops IH]; intros g0 f0 Hinv.
   - exists g0. split; [reflexivity|]. eapply text_inv_ext; [|exact Hinv]. intros k. reflexivity.
-  - cbn [snd] in Hop. unfold run. cbn [fold_left hist_step bind].
-    destruct (update_key_text g0 f0 k m bs Hinv Hop) as (g1 & -> & Hinv1).
+  - unfold run. cbn [fold_left hist_step bind].
+    destruct (update_key_text g0 f0 k m bs Hinv) as (g1 & -> & Hinv1).
     destruct (IH g1 _ Hinv1) as (g & Hr & Hg). exists g. split; [exact Hr|].
     eapply text_inv_ext; [|exact Hg]. intros k'. apply over_last_cons.
 Qed.
 
 (* ---------- import -------------------------------------------------------------------------------------------- *)
 
-Lemma import_fold_tree (notes : list op) : all_plain notes -> NoDup (map note_key notes) ->
+Lemma import_fold_tree (notes : list op) : NoDup (map note_key notes) ->
   forall g0 f0, tree_inv g0 f0 -> (forall n, In n notes -> f0 (note_key n) = None) ->
   exists g1, fold_left (fun acc n => do g <- acc; let '(name, meta, bs) := n in
                           build_note g (key_from_file_name name) meta bs) notes (Ok g0) = Ok g1 /\
              tree_inv g1 (over (last_op (ops_of notes)) f0) /\ gr_titles g1 = gr_titles g0.
 Proof.
-  induction 1 as [|[[name meta] bs] notes Hn _ IH]; intros Hnd g0 f0 Hinv Hfresh.
+  induction notes as [|[[name meta] bs] notes IH]; intros Hnd g0 f0 Hinv Hfresh.
   - exists g0. split; [reflexivity|]. split; [|reflexivity]. eapply tree_inv_ext; [|exact Hinv]. intros k. reflexivity.
-  - cbn [map] in Hnd. apply NoDup_cons_iff in Hnd as [Hni Hnd]. cbn [snd] in Hn. cbn [fold_left bind].
+  - cbn [map] in Hnd. apply NoDup_cons_iff in Hnd as [Hni Hnd]. cbn [fold_left bind].
     pose proof (Hfresh _ (or_introl eq_refl)) as Hnone. unfold note_key in Hnone. cbn [fst] in Hnone.
-    destruct (build_note_tree g0 f0 (key_from_file_name name) meta bs Hinv Hnone Hn) as (g1 & -> & Hinv1 & Ht1).
+    destruct (build_note_tree g0 f0 (key_from_file_name name) meta bs Hinv Hnone) as (g1 & -> & Hinv1 & Ht1).
     destruct (IH Hnd g1 _ Hinv1) as (g2 & Hf & Hinv2 & Ht2).
     + intros n Hin. unfold upd.
       destruct (String.eqb (note_key n) (key_from_file_name name)) eqn:E; [|apply Hfresh; now right].
@@ -427,11 +423,11 @@ Proof.
   - apply String.eqb_neq in E. rewrite IH. split; [intros H [H1|H1]; [congruence | tauto] | tauto].
 Qed.
 
-Theorem import_text (notes : list op) : all_plain notes -> NoDup (map note_key notes) ->
+Theorem import_text (notes : list op) : NoDup (map note_key notes) ->
   exists g, import notes = Ok g /\ text_inv g (last_op (ops_of notes)).
 Proof.
-  intros Hplain Hnd. unfold import.
-  destruct (import_fold_tree notes Hplain Hnd empty_graph no_spec (proj1 text_inv_empty) (fun _ _ => eq_refl))
+  intros Hnd. unfold import.
+  destruct (import_fold_tree notes Hnd empty_graph no_spec (proj1 text_inv_empty) (fun _ _ => eq_refl))
     as (g1 & -> & Hinv1 & Ht1).
   cbn [bind]. eexists. split; [reflexivity|].
   destruct (refresh_all_same (gr_keys g1) g1) as (Ea & Ek & Em).
@@ -632,14 +628,8 @@ Proof.
   congruence.
 Qed.
 
-Lemma final_ops_plain ops : all_plain ops -> all_plain (final_ops ops).
-Proof. unfold all_plain. rewrite !Forall_forall. intros H o Hin. apply H. now apply final_ops_incl. Qed.
-
 Lemma op_key_ops_of notes : map op_key (ops_of notes) = map note_key notes.
 Proof. unfold ops_of. rewrite map_map. reflexivity. Qed.
-
-Lemma all_plain_ops_of notes : all_plain (ops_of notes) <-> all_plain notes.
-Proof. unfold all_plain, ops_of. rewrite Forall_map. reflexivity. Qed.
 
 Lemma keys_iff g f : tree_inv g f -> forall k, In k (map fst (gr_keys g)) <-> f k <> None.
 Proof.
@@ -651,29 +641,29 @@ Qed.
 (* ---------- HEADLINES ------------------------------------------------------------------------------------------- *)
 
 (* the invariant after any history from the empty graph / from an import *)
-Theorem history_text ops : all_plain ops ->
+Theorem history_text ops :
   exists g, run ops (Ok empty_graph) = Ok g /\ text_inv g (last_op ops).
 Proof.
-  intros Hp. destruct (run_text ops Hp empty_graph no_spec text_inv_empty) as (g & Hr & Hg).
+  destruct (run_text ops empty_graph no_spec text_inv_empty) as (g & Hr & Hg).
   exists g. split; [exact Hr|]. eapply text_inv_ext; [|exact Hg]. apply over_no_spec.
 Qed.
 
-Theorem import_history_text notes ops : all_plain notes -> NoDup (map note_key notes) -> all_plain ops ->
+Theorem import_history_text notes ops : NoDup (map note_key notes) ->
   exists g, run ops (import notes) = Ok g /\ text_inv g (over (last_op ops) (last_op (ops_of notes))).
 Proof.
-  intros Hn Hnd Hp. destruct (import_text notes Hn Hnd) as (g0 & -> & H0). now apply run_text.
+  intros Hnd. destruct (import_text notes Hnd) as (g0 & -> & H0). now apply run_text.
 Qed.
 
 (* H1: after ANY history of updates from the empty graph, every key that occurs has a root, and the tree
    read back there is the specification tree of the LAST blocks written for it (numbered in pre-order from
    the root), its metadata and its cached title are the last ones; the keys are the distinct keys of ops *)
-Theorem collect_after_history (ops : list op) : all_plain ops ->
+Theorem collect_after_history (ops : list op) :
   exists g, run ops (Ok empty_graph) = Ok g /\
     (forall k m bs, last_op ops k = Some (m, bs) -> settled g k m bs) /\
     (forall k, In k (map fst (gr_keys g)) <-> In k (map op_key ops)) /\
     NoDup (map fst (gr_keys g)).
 Proof.
-  intros Hp. destruct (history_text ops Hp) as (g & Hr & Hg). exists g. split; [exact Hr|].
+  destruct (history_text ops) as (g & Hr & Hg). exists g. split; [exact Hr|].
   split; [intros k m bs; now apply inv_settled|]. split.
   - intros k. rewrite (keys_iff g _ (proj1 Hg) k). destruct (last_op ops k) as [x|] eqn:E.
     + split; [intros _ | discriminate].
@@ -687,7 +677,7 @@ Print Assumptions collect_after_history.
 (* H2: the same from an imported library (distinct note keys): notes updated by ops hold their last
    update, notes not touched by ops still hold their imported blocks *)
 Theorem collect_after_import_history (notes ops : list op) :
-  all_plain notes -> NoDup (map note_key notes) -> all_plain ops ->
+  NoDup (map note_key notes) ->
   exists g, run ops (import notes) = Ok g /\
     (forall k m bs, last_op ops k = Some (m, bs) -> settled g k m bs) /\
     (forall name m bs, In (name, m, bs) notes -> ~ In (key_from_file_name name) (map op_key ops) ->
@@ -695,7 +685,7 @@ Theorem collect_after_import_history (notes ops : list op) :
     (forall k, In k (map fst (gr_keys g)) <-> In k (map op_key ops) \/ In k (map note_key notes)) /\
     NoDup (map fst (gr_keys g)).
 Proof.
-  intros Hn Hnd Hp. destruct (import_history_text notes ops Hn Hnd Hp) as (g & Hr & Hg).
+  intros Hnd. destruct (import_history_text notes ops Hnd) as (g & Hr & Hg).
   exists g. split; [exact Hr|]. split; [|split; [|split]].
   - intros k m bs Hk. apply (inv_settled g _ k m bs Hg). unfold over. now rewrite Hk.
   - intros name m bs Hin Hni. apply (inv_settled g _ _ m bs Hg). unfold over.
@@ -717,35 +707,34 @@ Print Assumptions collect_after_import_history.
 (* H3: the text of every note after any history is the explicit function [spec_markdown] of the final
    texts (metadata and blocks of the last operation per key): no trace of earlier versions, of other
    notes' updates, of tombstones or of node ids *)
-Theorem text_after_history (ops : list op) : all_plain ops ->
+Theorem text_after_history (ops : list op) :
   exists g, run ops (Ok empty_graph) = Ok g /\
     forall o tables k,
       to_markdown o tables g k = spec_markdown o tables (last_op ops) k /\
       rmap erase (collect_key g k) = spec_collect (last_op ops) k /\
       get_key_title g k = spec_title (last_op ops) k.
 Proof.
-  intros Hp. destruct (history_text ops Hp) as (g & Hr & Hg). exists g. split; [exact Hr|].
+  destruct (history_text ops) as (g & Hr & Hg). exists g. split; [exact Hr|].
   intros o tables k. split; [now apply to_markdown_spec|]. split; [now apply collect_key_spec | apply Hg].
 Qed.
 Print Assumptions text_after_history.
 
 Theorem text_after_import_history (notes ops : list op) :
-  all_plain notes -> NoDup (map note_key notes) -> all_plain ops ->
+  NoDup (map note_key notes) ->
   exists g, run ops (import notes) = Ok g /\
     forall o tables k,
       to_markdown o tables g k = spec_markdown o tables (over (last_op ops) (last_op (ops_of notes))) k /\
       rmap erase (collect_key g k) = spec_collect (over (last_op ops) (last_op (ops_of notes))) k /\
       get_key_title g k = spec_title (over (last_op ops) (last_op (ops_of notes))) k.
 Proof.
-  intros Hn Hnd Hp. destruct (import_history_text notes ops Hn Hnd Hp) as (g & Hr & Hg). exists g. split; [exact Hr|].
+  intros Hnd. destruct (import_history_text notes ops Hnd) as (g & Hr & Hg). exists g. split; [exact Hr|].
   intros o tables k. split; [now apply to_markdown_spec|]. split; [now apply collect_key_spec | apply Hg].
 Qed.
 Print Assumptions text_after_import_history.
 
 (* two histories (each after its own import) with the same final text per key give the same answers *)
 Theorem text_no_history_runs (notes ops notes' ops' : list op) :
-  all_plain notes -> NoDup (map note_key notes) -> all_plain ops ->
-  all_plain notes' -> NoDup (map note_key notes') -> all_plain ops' ->
+  NoDup (map note_key notes) -> NoDup (map note_key notes') ->
   (forall k, over (last_op ops) (last_op (ops_of notes)) k = over (last_op ops') (last_op (ops_of notes')) k) ->
   exists g g', run ops (import notes) = Ok g /\ run ops' (import notes') = Ok g' /\
     forall o tables k,
@@ -753,9 +742,9 @@ Theorem text_no_history_runs (notes ops notes' ops' : list op) :
       rmap erase (collect_key g k) = rmap erase (collect_key g' k) /\
       get_key_title g k = get_key_title g' k.
 Proof.
-  intros Hn Hnd Hp Hn' Hnd' Hp' E.
-  destruct (import_history_text notes ops Hn Hnd Hp) as (g & Hr & Hg).
-  destruct (import_history_text notes' ops' Hn' Hnd' Hp') as (g' & Hr' & Hg').
+  intros Hnd Hnd' E.
+  destruct (import_history_text notes ops Hnd) as (g & Hr & Hg).
+  destruct (import_history_text notes' ops' Hnd') as (g' & Hr' & Hg').
   exists g, g'. split; [exact Hr|]. split; [exact Hr'|]. intros o tables k.
   pose proof (text_inv_ext _ _ _ (fun k => eq_sym (E k)) Hg') as Hg2.
   rewrite !(to_markdown_spec o tables _ _ k Hg), (to_markdown_spec o tables _ _ k Hg2).
@@ -766,18 +755,15 @@ Print Assumptions text_no_history_runs.
 
 (* C04 for texts: a history of updates leaves, for every note, the text and the tree that a fresh start on
    the final texts gives - the fresh start being the updates of the last text of every key, in ANY order ... *)
-Theorem text_fresh_updates (ops fresh : list op) : all_plain ops -> Permutation (final_ops ops) fresh ->
+Theorem text_fresh_updates (ops fresh : list op) : Permutation (final_ops ops) fresh ->
   exists g g', run ops (Ok empty_graph) = Ok g /\ run fresh (Ok empty_graph) = Ok g' /\
     forall o tables k,
       to_markdown o tables g k = to_markdown o tables g' k /\
       rmap erase (collect_key g k) = rmap erase (collect_key g' k) /\
       get_key_title g k = get_key_title g' k.
 Proof.
-  intros Hp P.
-  assert (Hpf : all_plain fresh).
-  { pose proof (final_ops_plain ops Hp) as H. unfold all_plain in *. rewrite Forall_forall in *.
-    intros o Hin. apply H. eapply Permutation_in; [apply Permutation_sym; exact P | exact Hin]. }
-  destruct (history_text ops Hp) as (g & Hr & Hg). destruct (history_text fresh Hpf) as (g' & Hr' & Hg').
+  intros P.
+  destruct (history_text ops) as (g & Hr & Hg). destruct (history_text fresh) as (g' & Hr' & Hg').
   exists g, g'. split; [exact Hr|]. split; [exact Hr'|]. intros o tables k.
   assert (E : forall k, last_op fresh k = last_op ops k).
   { intros k0. rewrite <- (last_op_perm (final_ops ops) fresh (final_ops_nodup ops) P). apply final_ops_last. }
@@ -789,20 +775,17 @@ Qed.
 Print Assumptions text_fresh_updates.
 
 (* ... or Graph::import of files that hold the final texts *)
-Theorem text_fresh_import (ops notes : list op) : all_plain ops -> Permutation (final_ops ops) (ops_of notes) ->
+Theorem text_fresh_import (ops notes : list op) : Permutation (final_ops ops) (ops_of notes) ->
   exists g g', run ops (Ok empty_graph) = Ok g /\ import notes = Ok g' /\
     forall o tables k,
       to_markdown o tables g k = to_markdown o tables g' k /\
       rmap erase (collect_key g k) = rmap erase (collect_key g' k) /\
       get_key_title g k = get_key_title g' k.
 Proof.
-  intros Hp P.
-  assert (Hpn : all_plain notes).
-  { apply all_plain_ops_of. pose proof (final_ops_plain ops Hp) as H. unfold all_plain in *. rewrite Forall_forall in *.
-    intros o Hin. apply H. eapply Permutation_in; [apply Permutation_sym; exact P | exact Hin]. }
+  intros P.
   assert (Hnd : NoDup (map note_key notes)).
   { rewrite <- op_key_ops_of. eapply Permutation_NoDup; [apply Permutation_map; exact P | apply final_ops_nodup]. }
-  destruct (history_text ops Hp) as (g & Hr & Hg). destruct (import_text notes Hpn Hnd) as (g' & Hr' & Hg').
+  destruct (history_text ops) as (g & Hr & Hg). destruct (import_text notes Hnd) as (g' & Hr' & Hg').
   exists g, g'. split; [exact Hr|]. split; [exact Hr'|]. intros o tables k.
   assert (E : forall k, last_op (ops_of notes) k = last_op ops k).
   { intros k0. rewrite <- (last_op_perm (final_ops ops) (ops_of notes) (final_ops_nodup ops) P). apply final_ops_last. }
@@ -815,7 +798,7 @@ Print Assumptions text_fresh_import.
 
 (* the cached title after any history, in closed form: the plain text of the first block of the last text if
    that block is a heading, nothing otherwise (extends C04_title_no_history from one step to whole histories) *)
-Theorem title_after_history (ops : list op) : all_plain ops ->
+Theorem title_after_history (ops : list op) :
   exists g, run ops (Ok empty_graph) = Ok g /\
     forall k, get_key_title g k =
       match last_op ops k with
@@ -823,7 +806,7 @@ Theorem title_after_history (ops : list op) : all_plain ops ->
       | _ => None
       end.
 Proof.
-  intros Hp. destruct (history_text ops Hp) as (g & Hr & [_ Ht]). exists g. split; [exact Hr|].
+  destruct (history_text ops) as (g & Hr & [_ Ht]). exists g. split; [exact Hr|].
   intros k. rewrite Ht. unfold spec_title. destruct (last_op ops k) as [[m bs]|]; [|reflexivity].
   rewrite spec_tree_title. destruct bs as [|[] r]; reflexivity.
 Qed.
@@ -849,9 +832,6 @@ Definition hx_ops : list op :=
    ("c", None, hx_c1);
    ("a", Some "t: x", hx_a3)].
 Definition hx_fresh : list op := [("a.md", Some "t: x", hx_a3); ("c.md", None, hx_c1); ("d/b.md", None, hx_b2)].
-
-Example hx_plain : all_plain hx_ops.
-Proof. unfold all_plain. repeat constructor. Qed.
 
 Example hx_perm : Permutation (final_ops hx_ops) (ops_of hx_fresh).
 Proof.
@@ -879,7 +859,7 @@ Example hx_no_history :
       to_markdown o tables g k = to_markdown o tables g' k /\
       rmap erase (collect_key g k) = rmap erase (collect_key g' k) /\
       get_key_title g k = get_key_title g' k.
-Proof. exact (text_fresh_import hx_ops hx_fresh hx_plain hx_perm). Qed.
+Proof. exact (text_fresh_import hx_ops hx_fresh hx_perm). Qed.
 
 (* keys are compared verbatim by update_key: `x`, `x.md` and `X` are three notes (the server normalises the key
    before it calls update_key); Graph::import normalises file names, hence the hypothesis NoDup (map note_key notes) *)
